@@ -103,9 +103,10 @@ Example astep_expr_dyn_hypotheses :
   (lex expr_sp ≫= parse code_prec) = Some expr_tree ∧
   (ok_ast (mgr (aworld_get dx_w0 0)) expr_tree ∧ ok_ast (mgr (aworld_get dx_w 0)) expr_tree) ∧
   (refs_in (heldn (hledger (aworld_get dx_w0 0))) expr_tree ∧
-   refs_in (heldn (hledger (aworld_get dx_w 0))) expr_tree).
+   refs_in (heldn (hledger (aworld_get dx_w 0))) expr_tree) ∧
+  (max_nodes (mgr (aworld_get dx_w0 0)) = None ∧ max_nodes (mgr (aworld_get dx_w 0)) = None).
 Proof.
-  split; [split|split; [by vm_compute|split; [split|split]]].
+  split; [split|split; [by vm_compute|split; [split|split; [split|split]]]].
   - unfold dx_w0. apply (arun_AInvD _ dx_wS 0 dx_wS_AInvDT).
     repeat (apply Forall_cons; split; [reflexivity|]). by apply Forall_nil.
   - unfold dx_w. apply (arun_AInvD _ dx_wS 0 dx_wS_AInvDT).
@@ -116,6 +117,8 @@ Proof.
     right. exists 6. by vm_compute.
   - apply refs_in_handles. apply Forall_cons. split; [|by apply Forall_nil].
     right. exists 6. by vm_compute.
+  - by vm_compute.
+  - by vm_compute.
 Qed.
 
 Example astep_expr_dyn_example :
